@@ -277,7 +277,7 @@ pub fn run(cfg: &Cfg, rep: &mut Rep) {
             }
         }
     }
-    let nrand = cfg.budget(1_200_000);
+    let nrand = cfg.budget(4_000_000);
     for k in 0..nrand {
         let c = crate::gen::rand_count_within(&mut r, ten_ky);
         check_dur(rep, c);
